@@ -373,6 +373,9 @@ impl CodegenContext {
 
         log::trace!("\n* NEXT PASS ({}) *", self.pass_idx);
         self.segments.values_mut().for_each(|s| s.reset());
+        // Every pass starts in the segment the first pass started in, which is the segment that was defined first. A segment
+        // that a '.segment' statement selected further down must not receive the beginning of the program in the next pass
+        self.current_segment = self.segments.keys().next().cloned();
         self.test_elements.clear();
         self.source_map.clear();
         // A symbol usage may resolve to another definition than it did in the previous pass
